@@ -177,7 +177,8 @@ func convertSchema(s string, t *VirtualTable) error {
 		if i > 0 {
 			s += ", "
 		}
-		s += c.Name
+		// names may need quoting ("a b", x.y); always emit them quoted
+		s += `"` + strings.ReplaceAll(c.Name, `"`, `""`) + `"`
 		if c.DefaultType != "" {
 			s += " " + c.DefaultType
 		}
